@@ -2,7 +2,7 @@
    idhash.c, correctness of id_find, the store / walk-back / rehash loops, and the
    refinement of the finite-map + cyclic-cursor specification, lifted to all
    operation histories.  Stdlib only; closed under the global context. *)
-From Coq Require Import List Arith Lia PeanoNat ZArith NArith Bool ZifyNat ZifyN.
+From Coq Require Import List Arith Lia PeanoNat ZArith NArith Bool ZifyNat ZifyN Permutation.
 From NngV Require Import IdMap.IdMapModel IdMap.IdMapSpec IdMap.ProbeOrder IdMap.IdMapLemmas.
 Import ListNotations.
 
@@ -414,7 +414,7 @@ Qed.
 Lemma st_load : sumf (2 ^ k) (ld T') = sumf (2 ^ k) (ld T) + S d.
 Proof.
   pose proof (sumf_upd (2 ^ k) (ld T) (ld T') p Hp (fun i _ Hne => st_ld i Hne)) as H.
-  destruct st_at_p as (e & E0 & V0 & E). unfold ld at 2 3 in H. rewrite E, E0 in H.
+  destruct st_at_p as (e & E0 & V0 & E). unfold ld at 2 4 in H. rewrite E, E0 in H.
   apply dead_val in V0. rewrite V0 in H. cbn [ie_live ie_val] in H. unfold edist in H. cbn [ie_key] in H.
   rewrite HL' in H. fold s in H. rewrite st_dist_p in H. lia.
 Qed.
@@ -422,7 +422,7 @@ Qed.
 Lemma st_cross c : sumf (2 ^ k) (cr T' c) = sumf (2 ^ k) (cr T c) + count_occ Nat.eq_dec (pref (2 ^ k) s d) c.
 Proof.
   pose proof (sumf_upd (2 ^ k) (cr T c) (cr T' c) p Hp (fun i _ Hne => st_cr c i Hne)) as H.
-  destruct st_at_p as (e & E0 & V0 & E). unfold cr at 2 3 in H. rewrite E, E0 in H.
+  destruct st_at_p as (e & E0 & V0 & E). unfold cr at 2 4 in H. rewrite E, E0 in H.
   apply dead_val in V0. rewrite V0 in H. cbn [ie_live ie_val] in H. unfold epref, edist in H. cbn [ie_key] in H.
   rewrite HL' in H. fold s in H. rewrite st_dist_p in H. lia.
 Qed.
@@ -440,12 +440,16 @@ Proof.
       apply (Hdead i e2 He2); [|congruence]. unfold ie_live in *. now rewrite <- Hv2.
     + destruct (st_other i ei Ei Hi) as (e1 & He1 & Hk1 & Hv1 & _).
       destruct (st_other j ej Ej Hj) as (e2 & He2 & Hk2 & Hv2 & _).
-      apply (ti_uniq T HT i j e1 e2); auto; unfold ie_live in *; congruence.
+      apply (ti_uniq T HT i j e1 e2); auto.
+      * unfold ie_live in *. now rewrite <- Hv1.
+      * unfold ie_live in *. now rewrite <- Hv2.
+      * congruence.
   - intros c e' Hc. rewrite HL', st_cross.
     destruct (Nat.eq_dec c p) as [E|E].
     + subst c. destruct st_at_p as (e & E0 & _ & E1). rewrite E1 in Hc. inversion Hc; subst e'. cbn [ie_skips].
       rewrite (ti_skips T HT p e E0), HL.
-      rewrite (count_occ_not_In Nat.eq_dec (pref (2 ^ k) s d) p) ; [lia|apply st_p_notin].
+      assert (Z: count_occ Nat.eq_dec (pref (2 ^ k) s d) p = 0) by (apply count_occ_not_In, st_p_notin).
+      rewrite Z. lia.
     + destruct (st_other c e' E Hc) as (e & He & _ & _ & Sk). rewrite Sk, (ti_skips T HT c e He), HL. reflexivity.
   - intros c e' Hc Hv. destruct (Nat.eq_dec c p) as [E|E].
     + subst c. destruct st_at_p as (e & _ & _ & E1). rewrite E1 in Hc. inversion Hc; subst e'. discriminate.
@@ -457,8 +461,8 @@ Proof.
   intros NT c e' Hc Hv. destruct (Nat.eq_dec c p) as [E|E].
   - subst c. destruct st_at_p as (e & _ & _ & E1). rewrite E1 in Hc. inversion Hc; subst e'. discriminate.
   - destruct (st_other c e' E Hc) as (e & He & Hk & Hv' & Sk). rewrite Sk.
-    rewrite (NT c e He) by congruence.
-    rewrite (count_occ_not_In Nat.eq_dec (pref (2 ^ k) s d) c); [reflexivity|].
+    rewrite (NT c e He) by congruence. cbn [Nat.add].
+    apply count_occ_not_In.
     intros Hin. apply pref_In in Hin. destruct Hin as (i & Hi & Ei).
     apply (Hocc i Hi). rewrite Ei. unfold lv. rewrite He. unfold lvb, ie_live. rewrite <- Hv', Hv. reflexivity.
 Qed.
@@ -480,3 +484,990 @@ Proof.
       * eexists c, _. split; [exact He2'|]. cbn. auto.
 Qed.
 End Stored.
+
+(* --------------------------------------- the walk-back loop (rm_loop) *)
+Definition unbump_at (l : list nat) (c : nat) (e : id_entry) : id_entry :=
+  mkIdEntry (ie_key e) (ie_skips e - count_occ Nat.eq_dec l c) (ie_val e).
+
+Lemma rm_loop_char k c : forall d T s load fuel,
+  length T = 2 ^ k -> s < 2 ^ k -> d < fuel -> d < load ->
+  (forall i, i < d -> path (2 ^ k) s i <> c) -> path (2 ^ k) s d = c ->
+  (forall c', c' < 2 ^ k -> exists e, nth_error T c' = Some e /\
+                                      count_occ Nat.eq_dec (pref (2 ^ k) s d) c' <= ie_skips e) ->
+  exists T', rm_loop T (2 ^ k) c s load fuel = IdOk (T', load - d - 1) /\ length T' = 2 ^ k /\
+    forall c' e, nth_error T c' = Some e ->
+      nth_error T' c' = Some (if c' =? c then mkIdEntry 0%N (ie_skips e) None
+                              else unbump_at (pref (2 ^ k) s d) c' e).
+Proof.
+  induction d as [|d IH]; intros T s load fuel HL Hs Hf Hl Hne Hd Hsk;
+    (destruct fuel as [|f]; [lia|]); (destruct load as [|load']; [lia|]); cbn [rm_loop id_dec id_bind].
+  - cbn [path] in Hd. subst c. destruct (Hsk s Hs) as (e & He & _). rewrite He, Nat.eqb_refl.
+    eexists. split; [f_equal; f_equal; lia|]. split; [rewrite tupd_length; lia|].
+    intros c' e' Hc'. rewrite tupd_nth by lia. destruct (c' =? s) eqn:E.
+    + apply Nat.eqb_eq in E. subst. rewrite He in Hc'. now inversion Hc'.
+    + rewrite Hc'. f_equal. unfold unbump_at, pref. cbn. destruct e'; cbn. f_equal. lia.
+  - assert (Hsc: s <> c) by (apply (Hne 0); lia).
+    destruct (Hsk s Hs) as (e0 & He0 & Hc0). rewrite He0.
+    apply Nat.eqb_neq in Hsc. rewrite Hsc. apply Nat.eqb_neq in Hsc.
+    rewrite pref_succ, count_occ_cons_eq in Hc0 by reflexivity.
+    destruct (ie_skips e0) as [|sk] eqn:Esk; [lia|].
+    set (T1 := tupd T s (mkIdEntry (ie_key e0) sk (ie_val e0))).
+    assert (HL1: length T1 = 2 ^ k) by (unfold T1; rewrite tupd_length; lia).
+    assert (N1: forall c', nth_error T1 c' = if c' =? s then Some (mkIdEntry (ie_key e0) sk (ie_val e0))
+                                            else nth_error T c').
+    { intros c'. unfold T1. apply tupd_nth. lia. }
+    rewrite id_next_nxt.
+    destruct (IH T1 (nxt (2 ^ k) s) load' f HL1 (nxt_lt _ _ (pow2_pos k)) ltac:(lia) ltac:(lia)) as (T' & R & HL' & P).
+    + intros i Hi. rewrite <- path_succ_r. apply Hne. lia.
+    + now rewrite <- path_succ_r.
+    + intros c' Hc'. rewrite N1. destruct (c' =? s) eqn:E.
+      * apply Nat.eqb_eq in E. subst c'. eexists. split; [reflexivity|]. cbn [ie_skips]. lia.
+      * destruct (Hsk c' Hc') as (e & He & Hc). exists e. split; [assumption|].
+        apply Nat.eqb_neq in E. rewrite pref_succ, count_occ_cons_neq in Hc by congruence. exact Hc.
+    + exists T'. split; [rewrite R; f_equal; f_equal; lia|]. split; [assumption|].
+      intros c' e Hc'. specialize (P c'). rewrite N1 in P. rewrite pref_succ.
+      destruct (c' =? s) eqn:Es.
+      * apply Nat.eqb_eq in Es. subst c'. rewrite He0 in Hc'. inversion Hc'; subst e.
+        rewrite (P _ eq_refl). apply Nat.eqb_neq in Hsc. rewrite Hsc. f_equal.
+        unfold unbump_at. cbn [ie_key ie_skips ie_val]. rewrite count_occ_cons_eq by reflexivity.
+        rewrite Esk. try reflexivity; f_equal; lia.
+      * rewrite (P _ Hc'). destruct (c' =? c); [reflexivity|]. f_equal. unfold unbump_at.
+        apply Nat.eqb_neq in Es. rewrite count_occ_cons_neq by congruence. reflexivity.
+Qed.
+
+Definition removed (k : nat) (T T' : list id_entry) (id : N) (c : nat) : Prop :=
+  let s := id_index (2 ^ k) id in
+  length T' = 2 ^ k /\
+  forall c' e, nth_error T c' = Some e ->
+    nth_error T' c' = Some (if c' =? c then mkIdEntry 0%N (ie_skips e) None
+                            else unbump_at (pref (2 ^ k) s (dist (2 ^ k) s c)) c' e).
+
+Section Removed.
+Variables (k : nat) (T T' : list id_entry) (id : N) (c : nat) (ec : id_entry).
+Let s := id_index (2 ^ k) id.
+Let d := dist (2 ^ k) s c.
+Hypothesis HL : length T = 2 ^ k.
+Hypothesis HT : TInv T.
+Hypothesis Hc : nth_error T c = Some ec.
+Hypothesis Lc : ie_live ec = true.
+Hypothesis Kc : ie_key ec = id.
+Hypothesis HR : removed k T T' id c.
+
+Let Hs : s < 2 ^ k := id_index_lt k id.
+Let HL' : length T' = 2 ^ k := proj1 HR.
+
+Lemma rm_c_lt : c < 2 ^ k.
+Proof. rewrite <- HL. apply nth_error_Some. congruence. Qed.
+
+Lemma rm_dist : d < 2 ^ k /\ path (2 ^ k) s d = c /\ forall i, i < d -> path (2 ^ k) s i <> c.
+Proof. apply dist_spec; [exact Hs|exact rm_c_lt]. Qed.
+
+Lemma rm_c_notin : ~ In c (pref (2 ^ k) s d).
+Proof.
+  intros Hin. apply pref_In in Hin. destruct Hin as (i & Hi & E). destruct rm_dist as (_ & _ & M). exact (M i Hi E).
+Qed.
+
+Lemma rm_cr_c c' : cr T c' c = count_occ Nat.eq_dec (pref (2 ^ k) s d) c'.
+Proof. unfold cr. rewrite Hc, Lc, HL. unfold epref, edist. rewrite Kc. reflexivity. Qed.
+
+Lemma rm_skips_ge c' : c' < 2 ^ k -> exists e, nth_error T c' = Some e /\
+  count_occ Nat.eq_dec (pref (2 ^ k) s d) c' <= ie_skips e.
+Proof.
+  clear HL' HR. intros H. destruct (nth_error_lt T c') as [e He]; [lia|]. exists e. split; [assumption|].
+  rewrite (ti_skips T HT c' e He), HL, <- rm_cr_c. apply sumf_ge. exact rm_c_lt.
+Qed.
+
+Lemma rm_load_ge : d < sumf (2 ^ k) (ld T).
+Proof.
+  clear HL' HR. pose proof (sumf_ge (2 ^ k) (ld T) c rm_c_lt) as H. unfold ld at 1 in H.
+  rewrite Hc, Lc, HL in H. unfold edist in H. rewrite Kc in H. fold s in H. fold d in H. lia.
+Qed.
+
+Lemma rm_other c' e' : c' <> c -> nth_error T' c' = Some e' ->
+  exists e, nth_error T c' = Some e /\ ie_key e' = ie_key e /\ ie_val e' = ie_val e /\
+            ie_skips e' = ie_skips e - count_occ Nat.eq_dec (pref (2 ^ k) s d) c'.
+Proof.
+  intros Hne H'. assert (c' < 2 ^ k) by (rewrite <- HL'; apply nth_error_Some; congruence).
+  destruct (nth_error_lt T c') as [e He]; [lia|].
+  pose proof (proj2 HR c' e He) as P. apply Nat.eqb_neq in Hne. rewrite Hne in P.
+  rewrite H' in P. inversion P; subst e'. exists e. cbn. auto.
+Qed.
+
+Lemma rm_at_c : nth_error T' c = Some (mkIdEntry 0%N (ie_skips ec) None).
+Proof. pose proof (proj2 HR c ec Hc) as P. now rewrite Nat.eqb_refl in P. Qed.
+
+Lemma rm_lv i : i <> c -> lv T' i = lv T i.
+Proof.
+  intros Hne. unfold lv. destruct (nth_error T' i) as [e'|] eqn:E.
+  - destruct (rm_other i e' Hne E) as (e & He & _ & Hv & _). rewrite He. unfold lvb, ie_live. now rewrite Hv.
+  - apply nth_error_None in E. assert (nth_error T i = None) by (apply nth_error_None; lia). now rewrite H.
+Qed.
+Lemma rm_ld i : i <> c -> ld T' i = ld T i.
+Proof.
+  intros Hne. unfold ld. rewrite HL, HL'. destruct (nth_error T' i) as [e'|] eqn:E.
+  - destruct (rm_other i e' Hne E) as (e & He & Hk & Hv & _). rewrite He. unfold ie_live, edist. now rewrite Hv, Hk.
+  - apply nth_error_None in E. assert (nth_error T i = None) by (apply nth_error_None; lia). now rewrite H.
+Qed.
+Lemma rm_cr c' i : i <> c -> cr T' c' i = cr T c' i.
+Proof.
+  intros Hne. unfold cr. rewrite HL, HL'. destruct (nth_error T' i) as [e'|] eqn:E.
+  - destruct (rm_other i e' Hne E) as (e & He & Hk & Hv & _). rewrite He.
+    unfold ie_live, epref, edist. now rewrite Hv, Hk.
+  - apply nth_error_None in E. assert (nth_error T i = None) by (apply nth_error_None; lia). now rewrite H.
+Qed.
+
+Lemma rm_count : S (sumf (2 ^ k) (lv T')) = sumf (2 ^ k) (lv T).
+Proof.
+  pose proof (sumf_upd (2 ^ k) (lv T) (lv T') c rm_c_lt (fun i _ Hne => rm_lv i Hne)) as H.
+  unfold lv at 2 4 in H. rewrite Hc, rm_at_c in H. unfold lvb in H. rewrite Lc in H. cbn in H. lia.
+Qed.
+
+Lemma rm_load : sumf (2 ^ k) (ld T') + S d = sumf (2 ^ k) (ld T).
+Proof.
+  pose proof (sumf_upd (2 ^ k) (ld T) (ld T') c rm_c_lt (fun i _ Hne => rm_ld i Hne)) as H.
+  unfold ld at 2 4 in H. rewrite Hc, rm_at_c, Lc, HL in H. cbn [ie_live ie_val] in H.
+  unfold edist in H. rewrite Kc in H. fold s in H. fold d in H. lia.
+Qed.
+
+Lemma rm_cross c' : sumf (2 ^ k) (cr T' c') + count_occ Nat.eq_dec (pref (2 ^ k) s d) c' = sumf (2 ^ k) (cr T c').
+Proof.
+  pose proof (sumf_upd (2 ^ k) (cr T c') (cr T' c') c rm_c_lt (fun i _ Hne => rm_cr c' i Hne)) as H.
+  rewrite rm_cr_c in H. unfold cr at 3 in H. rewrite rm_at_c in H. cbn [ie_live ie_val] in H. lia.
+Qed.
+
+Lemma rm_TInv : TInv T'.
+Proof.
+  split.
+  - intros i j ei ej Hi Hj Li Lj K.
+    destruct (Nat.eq_dec i c) as [Ei|Ei].
+    { subst i. rewrite rm_at_c in Hi. inversion Hi; subst ei. discriminate. }
+    destruct (Nat.eq_dec j c) as [Ej|Ej].
+    { subst j. rewrite rm_at_c in Hj. inversion Hj; subst ej. discriminate. }
+    destruct (rm_other i ei Ei Hi) as (e1 & He1 & Hk1 & Hv1 & _).
+    destruct (rm_other j ej Ej Hj) as (e2 & He2 & Hk2 & Hv2 & _).
+    apply (ti_uniq T HT i j e1 e2); auto.
+    + unfold ie_live in *. now rewrite <- Hv1.
+    + unfold ie_live in *. now rewrite <- Hv2.
+    + congruence.
+  - intros c' e' H'. rewrite HL'.
+    pose proof (rm_cross c') as X.
+    destruct (Nat.eq_dec c' c) as [E|E].
+    + subst c'. rewrite rm_at_c in H'. inversion H'; subst e'. cbn [ie_skips].
+      rewrite (ti_skips T HT c ec Hc), HL.
+      assert (Z: count_occ Nat.eq_dec (pref (2 ^ k) s d) c = 0) by (apply count_occ_not_In, rm_c_notin). lia.
+    + destruct (rm_other c' e' E H') as (e & He & _ & _ & Sk). rewrite Sk, (ti_skips T HT c' e He), HL. lia.
+  - intros c' e' H' Hv. destruct (Nat.eq_dec c' c) as [E|E].
+    + subst c'. rewrite rm_at_c in H'. now inversion H'.
+    + destruct (rm_other c' e' E H') as (e & He & Hk & Hv' & _). rewrite Hk. apply (ti_vacant T HT c' e He). congruence.
+Qed.
+
+Lemma rm_abs k' v' : In (k', v') (abs_list T') <-> In (k', v') (abs_list T) /\ k' <> id.
+Proof.
+  rewrite !abs_In. split.
+  - intros (c' & e' & H' & Hk & Hv). destruct (Nat.eq_dec c' c) as [E|E].
+    + subst c'. rewrite rm_at_c in H'. inversion H'; subst e'. discriminate.
+    + destruct (rm_other c' e' E H') as (e & He & Hk2 & Hv2 & _). split.
+      * exists c', e. repeat split; congruence.
+      * intros ->. apply E. apply (ti_uniq T HT c' c e ec); auto; [|congruence].
+        apply live_val. exists v'. congruence.
+  - intros [(c' & e & H' & Hk & Hv) Hne].
+    assert (c' <> c) by (intros ->; rewrite Hc in H'; inversion H'; subst; congruence).
+    pose proof (proj2 HR c' e H') as P. apply Nat.eqb_neq in H. rewrite H in P.
+    eexists c', _. split; [exact P|]. cbn. auto.
+Qed.
+End Removed.
+
+(* ------------------------------------------------------------- id_resize *)
+Lemma grow_cap_spec target : forall fuel c j, c = 2 ^ j -> 1 <= fuel -> target <= c * 2 ^ (fuel - 1) ->
+  exists j', j <= j' /\ grow_cap c target fuel = IdOk (2 ^ j') /\ target <= 2 ^ j'.
+Proof.
+  induction fuel as [|f IH]; intros c j Hc Hf Ht; [lia|]. cbn [grow_cap].
+  destruct (c <? target) eqn:E.
+  - apply Nat.ltb_lt in E. replace (S f - 1) with f in Ht by lia.
+    destruct f as [|f']. { cbn in Ht. lia. }
+    destruct (IH (c * 2) (S j)) as (j' & Hj & R & Hle).
+    + subst c. cbn [Nat.pow]. lia.
+    + lia.
+    + replace (S f' - 1) with f' by lia. cbn [Nat.pow] in Ht. lia.
+    + exists j'. split; [lia|]. split; assumption.
+  - apply Nat.ltb_ge in E. exists j. subst c. split; [lia|]. split; [reflexivity|assumption].
+Qed.
+
+Lemma lv_le_ld T i : lv T i <= ld T i.
+Proof. unfold lv, ld, lvb. destruct (nth_error T i) as [e|]; [destruct (ie_live e)|]; lia. Qed.
+
+Lemma sumf_le n f g : (forall i, i < n -> f i <= g i) -> sumf n f <= sumf n g.
+Proof.
+  induction n as [|n IH]; intros H; [cbn; lia|]. rewrite !sumf_S.
+  specialize (IH (fun i Hi => H i (Nat.lt_lt_succ_r _ _ Hi))). specialize (H n ltac:(lia)). lia.
+Qed.
+
+Lemma dead_of_notin T id : ~ In id (map fst (abs_list T)) ->
+  forall c e, nth_error T c = Some e -> ie_live e = true -> ie_key e <> id.
+Proof.
+  intros H c e Hc L K. apply live_val in L. destruct L as [v Hv]. apply H.
+  apply in_map_iff. exists (id, v). split; [reflexivity|]. apply abs_In. eauto.
+Qed.
+
+(* storing a key that is not live into a table with a vacant cell *)
+Lemma ins_spec k T id v load asrt :
+  length T = 2 ^ k -> TInv T -> sumf (2 ^ k) (lv T) < 2 ^ k ->
+  ~ In id (map fst (abs_list T)) -> (asrt = true -> NoTomb T) ->
+  exists T' d, ins_loop T (2 ^ k) id v (id_index (2 ^ k) id) load (2 ^ k) asrt = IdOk (T', load + d + 1) /\
+    length T' = 2 ^ k /\ TInv T' /\ (NoTomb T -> NoTomb T') /\
+    sumf (2 ^ k) (lv T') = S (sumf (2 ^ k) (lv T)) /\
+    sumf (2 ^ k) (ld T') = sumf (2 ^ k) (ld T) + S d /\
+    (forall k' v', In (k', v') (abs_list T') <-> (k' = id /\ v' = v) \/ In (k', v') (abs_list T)).
+Proof.
+  intros HL HT Hroom Hnew Hnt.
+  pose proof (id_index_lt k id) as Hs.
+  destruct (first_vacant k T _ HL Hs Hroom) as (d & Hd & Hvac & Hocc).
+  assert (Hp: path (2 ^ k) (id_index (2 ^ k) id) d < length T)
+    by (rewrite HL; apply path_lt; [apply pow2_pos|assumption]).
+  destruct (lv_vacant T _ Hp Hvac) as (ed & Hed & Ved).
+  destruct (ins_loop_char k id v asrt d T (id_index (2 ^ k) id) load (2 ^ k) ed HL Hs Hd) as (T' & R & HL' & P).
+  - intros i Hi. apply lv_live. apply Hocc. exact Hi.
+  - exact Hed.
+  - exact Ved.
+  - intros A. apply (Hnt A _ _ Hed Ved).
+  - assert (HS: stored k T T' id v d) by (split; assumption).
+    pose proof (dead_of_notin T id Hnew) as Hdead.
+    exists T', d. split; [exact R|]. split; [exact HL'|].
+    split; [exact (st_TInv k T T' id v d HL HT Hd Hocc Hvac Hdead HS)|].
+    split; [exact (st_NoTomb k T T' id v d HL Hd Hocc Hvac Hdead HS)|].
+    split; [exact (st_count k T T' id v d HL Hd Hocc Hvac Hdead HS)|].
+    split; [exact (st_load k T T' id v d HL Hd Hocc Hvac Hdead HS)|].
+    exact (st_abs k T T' id v d HL Hd Hocc Hvac Hdead HS).
+Qed.
+
+Lemma rehash_spec k : forall old N load,
+  length N = 2 ^ k -> TInv N -> NoTomb N -> load = sumf (2 ^ k) (ld N) ->
+  sumf (2 ^ k) (lv N) + length (abs_list old) < 2 ^ k ->
+  NoDup (map fst (abs_list old)) ->
+  (forall k', In k' (map fst (abs_list old)) -> ~ In k' (map fst (abs_list N))) ->
+  exists N' load', rehash old N (2 ^ k) load = IdOk (N', load') /\ length N' = 2 ^ k /\ TInv N' /\
+    load' = sumf (2 ^ k) (ld N') /\
+    sumf (2 ^ k) (lv N') = sumf (2 ^ k) (lv N) + length (abs_list old) /\
+    (forall k' v', In (k', v') (abs_list N') <-> In (k', v') (abs_list N) \/ In (k', v') (abs_list old)).
+Proof.
+  induction old as [|e rest IH]; intros N load HL HT NT Hload Hroom ND Hdisj; cbn [rehash].
+  - exists N, load. split; [reflexivity|]. split; [exact HL|]. split; [exact HT|]. split; [exact Hload|].
+    split; [cbn; lia|]. intros k' v'. cbn. tauto.
+  - cbn [abs_list flat_map] in *. fold (abs_list rest) in *.
+    destruct (ie_val e) as [v|] eqn:Ev.
+    + cbn [app map fst length] in *. apply NoDup_cons_iff in ND. destruct ND as [Hnin ND'].
+      destruct (ins_spec k N (ie_key e) v load true HL HT ltac:(lia)) as (N1 & d & R & HL1 & HT1 & NT1 & C1 & L1 & A1).
+      { apply Hdisj. now left. }
+      { intros _. exact NT. }
+      rewrite R. cbn [id_bind].
+      destruct (IH N1 (load + d + 1) HL1 HT1 (NT1 NT)) as (N' & load' & R' & HL' & HT' & Hl' & C' & A').
+      * rewrite L1. lia.
+      * rewrite C1. lia.
+      * exact ND'.
+      * intros k' Hin Hin1. apply in_map_iff in Hin1. destruct Hin1 as ([k2 v2] & Hk2 & Hin1). cbn in Hk2. subst k2.
+        apply A1 in Hin1. destruct Hin1 as [[-> _]|Hin1]; [contradiction|].
+        apply (Hdisj k'); [now right|]. apply in_map_iff. exists (k', v2). auto.
+      * exists N', load'. split; [exact R'|]. split; [exact HL'|]. split; [exact HT'|]. split; [exact Hl'|].
+        split; [rewrite C', C1; lia|].
+        intros k' v'. rewrite A', A1. split.
+        -- intros [[[-> ->]|H]|H]; auto. right. now left. right. now right.
+        -- intros [H|[H|H]]; auto. inversion H; subst. auto.
+    + cbn [app] in *. apply IH; auto.
+Qed.
+
+Lemma abs_list_fresh n : abs_list (repeat ie_empty n) = [].
+Proof. induction n as [|n IH]; [reflexivity|]. cbn. exact IH. Qed.
+
+Lemma fresh_table n :
+  TInv (repeat ie_empty n) /\ NoTomb (repeat ie_empty n) /\
+  (forall i, lv (repeat ie_empty n) i = 0) /\ (forall i, ld (repeat ie_empty n) i = 0) /\
+  abs_list (repeat ie_empty n) = [].
+Proof.
+  assert (G: forall i e, nth_error (repeat ie_empty n) i = Some e -> e = ie_empty).
+  { intros i e H. apply nth_error_In in H. now apply repeat_spec in H. }
+  assert (Lv: forall i, lv (repeat ie_empty n) i = 0).
+  { intros i. unfold lv. destruct (nth_error (repeat ie_empty n) i) eqn:E; [|reflexivity].
+    apply G in E. subst. reflexivity. }
+  split; [|split; [|split; [exact Lv|split]]].
+  - split.
+    + intros i j ei ej Hi Hj Li. apply G in Hi. subst. discriminate.
+    + intros c e Hc. apply G in Hc. subst. cbn. symmetry. apply sumf_zero. intros i _.
+      unfold cr. destruct (nth_error (repeat ie_empty n) i) eqn:E; [|reflexivity]. apply G in E. subst. reflexivity.
+    + intros c e Hc _. apply G in Hc. now subst.
+  - intros c e Hc _. apply G in Hc. now subst.
+  - intros i. unfold ld. destruct (nth_error (repeat ie_empty n) i) eqn:E; [|reflexivity]. apply G in E. subst. reflexivity.
+  - apply abs_list_fresh.
+Qed.
+
+(* the part of a map the invariant and the abstraction look at *)
+Definition same_core (m m' : id_map) : Prop :=
+  id_entries m' = id_entries m /\ id_count m' = id_count m /\ id_load m' = id_load m /\
+  id_min_load m' = id_min_load m /\ id_max_load m' = id_max_load m.
+Definition same_range (m m' : id_map) : Prop :=
+  id_min_val m' = id_min_val m /\ id_max_val m' = id_max_val m /\ id_random m' = id_random m /\
+  id_dyn_val m' = id_dyn_val m.
+
+Lemma MInv_core m m' : same_core m m' -> MInv m -> MInv m'.
+Proof.
+  intros (E1 & E2 & E3 & E4 & E5) [A B C D E]. split; unfold thresholds_ok, id_cap in *;
+    rewrite ?E1, ?E2, ?E3, ?E4, ?E5; assumption.
+Qed.
+
+Lemma MInv_count_le_load m : MInv m -> id_count m <= id_load m.
+Proof.
+  intros HI. rewrite (mi_count m HI), (mi_load m HI). apply sumf_le. intros; apply lv_le_ld.
+Qed.
+
+Lemma MInv_max_le_cap m : MInv m -> id_max_load m <= id_cap m.
+Proof. intros HI. destruct (mi_thr m HI) as [(A & B & C)|[(A & B & C)|(A & B & C)]]; lia. Qed.
+
+Definition abs_same (m m' : id_map) : Prop :=
+  forall k v, In (k, v) (abs_list (id_entries m')) <-> In (k, v) (abs_list (id_entries m)).
+
+Lemma id_resize_spec m fail : MInv m ->
+  exists rv m', id_resize m fail = IdOk (rv, m') /\ MInv m' /\ abs_same m m' /\
+    id_count m' = id_count m /\ same_range m m' /\
+    ((rv = 0%N /\ id_count m' < id_cap m') \/ (rv = id_ENOMEM /\ fail = true)).
+Proof.
+  intros HI. unfold id_resize.
+  destruct ((id_load m <? id_max_load m) && (id_min_load m <=? id_load m)) eqn:Ethr.
+  { exists 0%N, m. split; [reflexivity|]. split; [assumption|]. split; [intros ? ?; tauto|]. split; [reflexivity|].
+    split; [repeat split|]. left. split; [reflexivity|].
+    apply andb_true_iff in Ethr. destruct Ethr as [E1 _]. apply Nat.ltb_lt in E1.
+    pose proof (MInv_count_le_load m HI). pose proof (MInv_max_le_cap m HI). lia. }
+  set (m0 := if id_static m then set_registered m else m).
+  assert (C0: same_core m m0) by (unfold m0; destruct (id_static m); repeat split).
+  assert (R0: same_range m m0) by (unfold m0; destruct (id_static m); repeat split).
+  assert (HI0: MInv m0) by (eapply MInv_core; eauto).
+  destruct C0 as (E1 & E2 & E3 & E4 & E5).
+  destruct (grow_cap_spec (id_count m0 * 2) (S (id_count m0)) ID_MIN_CAP 3 eq_refl ltac:(lia)) as (j & Hj & RG & Hle).
+  { replace (S (id_count m0) - 1) with (id_count m0) by lia.
+    pose proof (Nat.pow_gt_lin_r 2 (id_count m0) ltac:(lia)). unfold ID_MIN_CAP. lia. }
+  rewrite RG. cbn [id_bind].
+  assert (Hpow: 8 <= 2 ^ j).
+  { replace 8 with (2 ^ 3) by reflexivity. apply Nat.pow_le_mono_r; lia. }
+  destruct (2 ^ j =? id_cap m0) eqn:Esame.
+  { apply Nat.eqb_eq in Esame. exists 0%N, m0. split; [reflexivity|]. split; [assumption|].
+    split; [intros ? ?; rewrite E1; tauto|]. split; [assumption|]. split; [assumption|].
+    left. split; [reflexivity|]. lia. }
+  destruct fail.
+  { exists id_ENOMEM, m0. split; [reflexivity|]. split; [assumption|].
+    split; [intros ? ?; rewrite E1; tauto|]. split; [assumption|]. split; [assumption|]. right. auto. }
+  destruct (fresh_table (2 ^ j)) as (FT & FN & FLv & FLd & FA).
+  destruct (rehash_spec j (id_entries m0) (repeat ie_empty (2 ^ j)) 0) as (N' & load' & RH & HL' & HT' & Hl' & C' & A').
+  - apply repeat_length.
+  - exact FT.
+  - exact FN.
+  - symmetry. apply sumf_zero. intros; apply FLd.
+  - rewrite (sumf_zero _ _ (fun i _ => FLv i)), abs_length. fold (id_cap m0). rewrite <- (mi_count m0 HI0). lia.
+  - apply abs_NoDup, (mi_tinv m0 HI0).
+  - intros k' _. rewrite FA. auto.
+  - rewrite RH. cbn [id_bind].
+    assert (Cnt: id_count m0 = sumf (2 ^ j) (lv N')).
+    { rewrite C', (sumf_zero _ _ (fun i _ => FLv i)), abs_length. fold (id_cap m0). apply (mi_count m0 HI0). }
+    destruct (ID_MIN_CAP <? 2 ^ j) eqn:Ebig; eexists 0%N, _; (split; [reflexivity|]);
+      (split; [|split; [|split; [|split; [|left; split; [reflexivity|]]]]]); cbn [id_count id_cap id_entries];
+      try (intros k' v'; cbn [id_entries]; rewrite A', FA, E1; cbn; tauto); try assumption; try lia.
+    + split; unfold thresholds_ok, id_cap; cbn [id_entries id_count id_load id_min_load id_max_load]; rewrite ?HL'; auto.
+      * right. exists j. split; [lia|reflexivity].
+      * apply Nat.ltb_lt in Ebig. unfold ID_MIN_CAP in Ebig. right. right. auto.
+    + unfold id_cap. cbn [id_entries]. rewrite HL'. lia.
+    + split; unfold thresholds_ok, id_cap; cbn [id_entries id_count id_load id_min_load id_max_load]; rewrite ?HL'; auto.
+      * right. exists j. split; [lia|reflexivity].
+      * apply Nat.ltb_ge in Ebig. unfold ID_MIN_CAP, ID_SMALL_MAX_LOAD in *. right. left. split; [lia|auto].
+    + unfold id_cap. cbn [id_entries]. rewrite HL'. lia.
+Qed.
+
+(* ------------------------------------------------ overwriting a live value *)
+Section Overwrite.
+Variables (T : list id_entry) (c : nat) (e : id_entry) (v : N).
+Hypothesis HT : TInv T.
+Hypothesis Hc : nth_error T c = Some e.
+Hypothesis Lc : ie_live e = true.
+Let T' := tupd T c (mkIdEntry (ie_key e) (ie_skips e) (Some v)).
+
+Let Hlt : c < length T.
+Proof. apply nth_error_Some. congruence. Qed.
+
+Lemma ow_length : length T' = length T.
+Proof. unfold T'. now apply tupd_length. Qed.
+
+Lemma ow_nth i : nth_error T' i = if i =? c then Some (mkIdEntry (ie_key e) (ie_skips e) (Some v)) else nth_error T i.
+Proof. unfold T'. now apply tupd_nth. Qed.
+
+Lemma ow_shape i e' : nth_error T' i = Some e' ->
+  exists e0, nth_error T i = Some e0 /\ ie_key e' = ie_key e0 /\ ie_live e' = ie_live e0 /\ ie_skips e' = ie_skips e0 /\
+             (i <> c -> ie_val e' = ie_val e0).
+Proof.
+  rewrite ow_nth. destruct (i =? c) eqn:E.
+  - apply Nat.eqb_eq in E. subst i. intros H. inversion H; subst e'. exists e. cbn. rewrite Lc. repeat split; auto. congruence.
+  - intros H. exists e'. auto.
+Qed.
+
+Lemma ow_lv i : lv T' i = lv T i.
+Proof.
+  unfold lv. destruct (nth_error T' i) as [e'|] eqn:E.
+  - destruct (ow_shape i e' E) as (e0 & H0 & _ & L & _). rewrite H0. unfold lvb. now rewrite L.
+  - rewrite ow_nth in E. destruct (i =? c); [discriminate|]. now rewrite E.
+Qed.
+Lemma ow_ld i : ld T' i = ld T i.
+Proof.
+  unfold ld. rewrite ow_length. destruct (nth_error T' i) as [e'|] eqn:E.
+  - destruct (ow_shape i e' E) as (e0 & H0 & K & L & _). rewrite H0, L. unfold edist. now rewrite K.
+  - rewrite ow_nth in E. destruct (i =? c); [discriminate|]. now rewrite E.
+Qed.
+Lemma ow_cr c' i : cr T' c' i = cr T c' i.
+Proof.
+  unfold cr. rewrite ow_length. destruct (nth_error T' i) as [e'|] eqn:E.
+  - destruct (ow_shape i e' E) as (e0 & H0 & K & L & _). rewrite H0, L. unfold epref, edist. now rewrite K.
+  - rewrite ow_nth in E. destruct (i =? c); [discriminate|]. now rewrite E.
+Qed.
+
+Lemma ow_TInv : TInv T'.
+Proof.
+  split.
+  - intros i j ei ej Hi Hj Li Lj K.
+    destruct (ow_shape i ei Hi) as (e1 & H1 & K1 & L1 & _). destruct (ow_shape j ej Hj) as (e2 & H2 & K2 & L2 & _).
+    apply (ti_uniq T HT i j e1 e2); congruence.
+  - intros c' e' H'. destruct (ow_shape c' e' H') as (e0 & H0 & _ & _ & S0 & _).
+    rewrite S0, (ti_skips T HT c' e0 H0), ow_length. apply sumf_ext. intros i _. symmetry. apply ow_cr.
+  - intros c' e' H' Hv. destruct (ow_shape c' e' H') as (e0 & H0 & K0 & L0 & _ & V0).
+    rewrite K0. apply (ti_vacant T HT c' e0 H0). apply dead_val. rewrite <- L0. now apply dead_val.
+Qed.
+
+Lemma ow_abs k' v' : In (k', v') (abs_list T') <->
+  (k' = ie_key e /\ v' = v) \/ (In (k', v') (abs_list T) /\ k' <> ie_key e).
+Proof.
+  rewrite !abs_In. split.
+  - intros (i & e' & Hi & Hk & Hv). rewrite ow_nth in Hi. destruct (i =? c) eqn:E.
+    + inversion Hi; subst e'. cbn in *. left. split; congruence.
+    + right. split; [eauto|]. intros ->. apply Nat.eqb_neq in E. apply E.
+      apply (ti_uniq T HT i c e' e); auto. apply live_val; eauto.
+  - intros [[-> ->]|[(i & e' & Hi & Hk & Hv) Hne]].
+    + exists c, (mkIdEntry (ie_key e) (ie_skips e) (Some v)). rewrite ow_nth, Nat.eqb_refl. auto.
+    + exists i, e'. rewrite ow_nth. destruct (i =? c) eqn:E; [|auto].
+      apply Nat.eqb_eq in E. subst i. congruence.
+Qed.
+End Overwrite.
+
+Lemma notin_of_dead T id :
+  (forall c e, nth_error T c = Some e -> ie_live e = true -> ie_key e <> id) ->
+  ~ In id (map fst (abs_list T)).
+Proof.
+  intros D Hin. apply in_map_iff in Hin. destruct Hin as ([k' v] & Hk & Hin). cbn in Hk. subst k'.
+  apply abs_In in Hin. destruct Hin as (c & e & Hc & Hk & Hv). eapply D; eauto. apply live_val; eauto.
+Qed.
+
+Lemma MInv_pow2 m : MInv m -> 0 < id_cap m -> exists k, 3 <= k /\ id_cap m = 2 ^ k.
+Proof. intros HI H. destruct (mi_cap m HI) as [Z|X]; [lia|exact X]. Qed.
+
+(* the bindings after a successful set, as a set of pairs *)
+Definition set_pairs (m m' : id_map) (id v : N) : Prop :=
+  forall k' v', In (k', v') (abs_list (id_entries m')) <->
+                (k' = id /\ v' = v) \/ (In (k', v') (abs_list (id_entries m)) /\ k' <> id).
+
+Lemma id_set_spec m id v fail : MInv m ->
+  exists rv m', id_set m id v fail = IdOk (rv, m') /\ MInv m' /\ same_range m m' /\
+    ((rv = 0%N /\ set_pairs m m' id v) \/
+     (rv = id_ENOMEM /\ fail = true /\ abs_same m m' /\ id_count m' = id_count m)).
+Proof.
+  intros HI. unfold id_set.
+  destruct (id_resize_spec m fail HI) as (rv0 & m1 & R & HI1 & AS & CS & RS & [[-> Hvac]|[-> Hf]]);
+    rewrite R; cbn [id_bind N.eqb negb].
+  2:{ exists id_ENOMEM, m1. split; [reflexivity|]. split; [assumption|]. split; [assumption|]. right. auto. }
+  destruct (MInv_pow2 m1 HI1 ltac:(lia)) as (k & Hk & Hcap).
+  destruct (id_find_spec m1 id HI1) as [(c & e & F & Hc & L & K)|[F D]]; rewrite F; cbn [id_bind].
+  - rewrite Hc. eexists 0%N, _. split; [reflexivity|].
+    pose proof (ow_length (id_entries m1) c e v Hc) as OL.
+    split; [|split; [exact RS|left; split; [reflexivity|]]].
+    + split; unfold thresholds_ok, id_cap; cbn [set_table id_entries id_count id_load id_min_load id_max_load]; rewrite ?OL.
+      * exact (mi_cap m1 HI1).
+      * exact (ow_TInv _ c e v (mi_tinv m1 HI1) Hc L).
+      * rewrite (mi_count m1 HI1). apply sumf_ext. intros i _. symmetry. exact (ow_lv _ c e v Hc L i).
+      * rewrite (mi_load m1 HI1). apply sumf_ext. intros i _. symmetry. exact (ow_ld _ c e v Hc L i).
+      * exact (mi_thr m1 HI1).
+    + intros k' v'. cbn [set_table id_entries]. rewrite (ow_abs _ c e v (mi_tinv m1 HI1) Hc L k' v'), K.
+      rewrite (AS k' v'). reflexivity.
+  - unfold id_cap in *. rewrite Hcap.
+    destruct (ins_spec k (id_entries m1) id v (id_load m1) false Hcap (mi_tinv m1 HI1)) as (T' & d & RI & HL' & HT' & _ & C' & L' & A').
+    + rewrite <- Hcap. fold (id_cap m1). rewrite <- (mi_count m1 HI1). unfold id_cap. lia.
+    + now apply notin_of_dead.
+    + discriminate.
+    + rewrite RI. cbn [id_bind]. eexists 0%N, _. split; [reflexivity|].
+      split; [|split; [exact RS|left; split; [reflexivity|]]].
+      * split; unfold thresholds_ok, id_cap; cbn [set_table id_entries id_count id_load id_min_load id_max_load]; rewrite ?HL'.
+        -- right. exists k. auto.
+        -- exact HT'.
+        -- rewrite C'. f_equal. rewrite <- Hcap. exact (mi_count m1 HI1).
+        -- rewrite L'. pose proof (mi_load m1 HI1) as X. unfold id_cap in X. rewrite Hcap in X. lia.
+        -- pose proof (mi_thr m1 HI1) as X. unfold thresholds_ok, id_cap in X. rewrite Hcap in X. exact X.
+      * intros k' v'. cbn [set_table id_entries]. rewrite (A' k' v'), (AS k' v'). split.
+        -- intros [H|H]; [auto|]. right. split; [assumption|]. intros ->.
+           apply (notin_of_dead _ _ D). apply in_map_iff. exists (id, v'). split; [reflexivity|]. now apply AS.
+        -- tauto.
+Qed.
+
+Definition remove_pairs (m m' : id_map) (id : N) : Prop :=
+  forall k' v', In (k', v') (abs_list (id_entries m')) <-> In (k', v') (abs_list (id_entries m)) /\ k' <> id.
+
+Lemma id_remove_spec m id fail : MInv m ->
+  exists rv m', id_remove m id fail = IdOk (rv, m') /\ MInv m' /\ same_range m m' /\
+    ((rv = id_ENOENT /\ m' = m /\ ~ In id (map fst (abs_list (id_entries m)))) \/
+     (rv = 0%N /\ In id (map fst (abs_list (id_entries m))) /\ remove_pairs m m' id /\ S (id_count m') = id_count m)).
+Proof.
+  intros HI. unfold id_remove.
+  destruct (id_find_spec m id HI) as [(c & e & F & Hc & L & K)|[F D]]; rewrite F; cbn [id_bind].
+  2:{ exists id_ENOENT, m. split; [reflexivity|]. split; [assumption|]. split; [repeat split|].
+      left. split; [reflexivity|]. split; [reflexivity|]. now apply notin_of_dead. }
+  assert (Hlt: c < id_cap m) by (apply nth_error_Some; congruence).
+  destruct (MInv_pow2 m HI ltac:(lia)) as (k & Hk & Hcap). unfold id_cap in Hcap.
+  pose proof (mi_tinv m HI) as HT.
+  destruct (rm_dist k (id_entries m) id c e Hcap Hc) as (Dlt & Dp & Dmin).
+  pose proof (rm_load_ge k (id_entries m) id c e Hcap Hc L K) as LG.
+  unfold id_cap. rewrite Hcap.
+  destruct (rm_loop_char k c (dist (2 ^ k) (id_index (2 ^ k) id) c) (id_entries m) (id_index (2 ^ k) id)
+              (id_load m) (2 ^ k) Hcap (id_index_lt k id) Dlt) as (T' & RL & HL' & P).
+  - pose proof (mi_load m HI) as X. unfold id_cap in X. rewrite Hcap in X. lia.
+  - exact Dmin.
+  - exact Dp.
+  - exact (rm_skips_ge k (id_entries m) id c e Hcap HT Hc L K).
+  - rewrite RL. cbn [id_bind].
+    assert (HR: removed k (id_entries m) T' id c) by (split; assumption).
+    pose proof (rm_count k (id_entries m) T' id c e Hcap Hc L K HR) as RC.
+    pose proof (rm_load k (id_entries m) T' id c e Hcap Hc L K HR) as RLd.
+    pose proof (mi_count m HI) as MC. unfold id_cap in MC. rewrite Hcap in MC.
+    pose proof (mi_load m HI) as ML. unfold id_cap in ML. rewrite Hcap in ML.
+    destruct (id_count m) as [|cnt] eqn:Ecnt; [lia|]. cbn [id_dec id_bind].
+    set (m2 := set_table m T' cnt (id_load m - dist (2 ^ k) (id_index (2 ^ k) id) c - 1)).
+    assert (HI2: MInv m2).
+    { split; unfold thresholds_ok, id_cap, m2; cbn [set_table id_entries id_count id_load id_min_load id_max_load]; rewrite ?HL'.
+      - right. exists k. auto.
+      - exact (rm_TInv k (id_entries m) T' id c e Hcap HT Hc L K HR).
+      - lia.
+      - lia.
+      - pose proof (mi_thr m HI) as X. unfold thresholds_ok, id_cap in X. rewrite Hcap in X. exact X. }
+    destruct (id_resize_spec m2 fail HI2) as (rv0 & m' & R & HI' & AS & CS & RS & _).
+    rewrite R. cbn [id_bind]. exists 0%N, m'. split; [reflexivity|]. split; [assumption|].
+    split; [exact RS|]. right. split; [reflexivity|].
+    split; [|split].
+    + apply in_map_iff. apply live_val in L. destruct L as [v0 Hv0]. exists (id, v0). split; [reflexivity|].
+      apply abs_In. eauto.
+    + intros k' v'. rewrite (AS k' v'). unfold m2. cbn [set_table id_entries].
+      exact (rm_abs k (id_entries m) T' id c e Hcap HT Hc L K HR k' v').
+    + rewrite CS. unfold m2. reflexivity.
+Qed.
+
+(* ---------------------------------------------------------------- visit *)
+Fixpoint first_live (l : list id_entry) (index : nat) : option (N * N) * nat :=
+  match l with
+  | [] => (None, index)
+  | e :: r => match ie_val e with
+              | Some v => (Some (ie_key e, v), S index)
+              | None => first_live r (S index)
+              end
+  end.
+
+Lemma skipn_nth_cons {A} (T : list A) i e : nth_error T i = Some e -> skipn i T = e :: skipn (S i) T.
+Proof.
+  revert i; induction T as [|a T IH]; intros i H; [destruct i; discriminate|].
+  destruct i; cbn in *; [now inversion H|]. now apply IH.
+Qed.
+
+Lemma skipn_add {A} (l : list A) a b : skipn a (skipn b l) = skipn (a + b) l.
+Proof.
+  revert l; induction b as [|b IH]; intros l.
+  - now rewrite Nat.add_0_r.
+  - destruct l as [|x l]. { now rewrite !skipn_nil. }
+    replace (a + S b) with (S (a + b)) by lia. cbn. apply IH.
+Qed.
+
+Lemma visit_loop_spec T : forall fuel index, length T - index < fuel ->
+  visit_loop T index fuel = IdOk (first_live (skipn index T) index).
+Proof.
+  induction fuel as [|f IH]; intros index Hf; [lia|]. cbn [visit_loop].
+  destruct (index <? length T) eqn:E.
+  - apply Nat.ltb_lt in E. destruct (nth_error_lt T index E) as [e He]. rewrite He.
+    rewrite (skipn_nth_cons T index e He). cbn [first_live]. destruct (ie_val e); [reflexivity|].
+    apply IH. lia.
+  - apply Nat.ltb_ge in E. rewrite skipn_all2 by lia. reflexivity.
+Qed.
+
+Lemma first_live_spec : forall l index,
+  match first_live l index with
+  | (None, _) => abs_list l = []
+  | (Some kv, c') => exists j, c' = S (index + j) /\ j < length l /\ abs_list l = kv :: abs_list (skipn (S j) l)
+  end.
+Proof.
+  induction l as [|e r IH]; intros index; cbn [first_live]; [reflexivity|].
+  cbn [abs_list flat_map]. fold (abs_list r). destruct (ie_val e) as [v|] eqn:Ev.
+  - exists 0. cbn. repeat split; [lia|lia].
+  - specialize (IH (S index)). destruct (first_live r (S index)) as [[kv|] c'].
+    + destruct IH as (j & -> & Hj & E). exists (S j). cbn [length app skipn]. repeat split; [lia|lia|exact E].
+    + exact IH.
+Qed.
+
+Lemma visit_all_loop_spec m : forall fuel cursor, id_cap m - cursor < fuel ->
+  visit_all_loop m cursor fuel = IdOk (abs_list (skipn cursor (id_entries m))).
+Proof.
+  induction fuel as [|f IH]; intros cursor Hf; [lia|]. cbn [visit_all_loop]. unfold id_visit.
+  rewrite visit_loop_spec by (fold (id_cap m); lia). cbn [id_bind].
+  pose proof (first_live_spec (skipn cursor (id_entries m)) cursor) as P.
+  destruct (first_live (skipn cursor (id_entries m)) cursor) as [[kv|] c'].
+  - destruct P as (j & -> & Hj & E). rewrite skipn_length in Hj. fold (id_cap m) in Hj.
+    rewrite IH by lia. cbn [id_bind]. rewrite E, skipn_add. replace (S (cursor + j)) with (S j + cursor)%nat by lia. reflexivity.
+  - now rewrite P.
+Qed.
+
+Lemma id_visit_all_spec m : id_visit_all m = IdOk (abs_list (id_entries m)).
+Proof. unfold id_visit_all. rewrite visit_all_loop_spec by lia. reflexivity. Qed.
+
+(* ---------------------------------------------------------------- alloc *)
+Local Open Scope N_scope.
+
+Lemma cyc_succ_range lo hi x : lo <= x <= hi -> lo <= cyc_succ lo hi x <= hi.
+Proof. intros H. unfold cyc_succ. destruct (hi <? x + 1) eqn:E; [lia|]. apply N.ltb_ge in E. lia. Qed.
+
+Lemma mod_shift_neq R y d : 0 < d -> d < R -> (y + d) mod R <> y mod R.
+Proof.
+  intros Hd HR E.
+  pose proof (N.div_mod (y + d) R ltac:(lia)) as H1. pose proof (N.div_mod y R ltac:(lia)) as H2.
+  rewrite E in H1. set (q1 := (y + d) / R) in *. set (q2 := y / R) in *.
+  destruct (N.le_gt_cases q1 q2) as [L|L].
+  - assert (R * q1 <= R * q2) by (apply N.mul_le_mono_l; assumption). lia.
+  - assert (R * (q2 + 1) <= R * q1) by (apply N.mul_le_mono_l; lia). lia.
+Qed.
+
+Lemma cyc_iter_closed lo hi : lo <= hi -> forall n x, lo <= x <= hi ->
+  cyc_iter lo hi n x = lo + (x - lo + N.of_nat n) mod (hi - lo + 1).
+Proof.
+  intros Hlh. induction n as [|n IH]; intros x Hx.
+  - cbn [cyc_iter]. rewrite N.add_0_r, N.mod_small by lia. lia.
+  - cbn [cyc_iter]. rewrite IH by (now apply cyc_succ_range). f_equal.
+    unfold cyc_succ. destruct (hi <? x + 1) eqn:E.
+    + apply N.ltb_lt in E. assert (x = hi) by lia. subst x.
+      replace (hi - lo + N.of_nat (S n)) with (N.of_nat n + 1 * (hi - lo + 1)) by lia.
+      rewrite N.mod_add by lia. f_equal. lia.
+    + apply N.ltb_ge in E. f_equal. lia.
+Qed.
+
+Lemma cyc_iter_range lo hi n x : lo <= hi -> lo <= x <= hi -> lo <= cyc_iter lo hi n x <= hi.
+Proof.
+  intros Hlh Hx. rewrite cyc_iter_closed by assumption.
+  pose proof (N.mod_lt (x - lo + N.of_nat n) (hi - lo + 1) ltac:(lia)). lia.
+Qed.
+
+(* the first hi-lo+1 iterates are pairwise distinct: the cursor passes over every id
+   of the range before it comes back *)
+Lemma cyc_iter_inj lo hi x i j : lo <= hi -> lo <= x <= hi ->
+  (i < j)%nat -> N.of_nat j < N.of_nat i + (hi - lo + 1) -> cyc_iter lo hi i x <> cyc_iter lo hi j x.
+Proof.
+  intros Hlh Hx Hij Hj E. rewrite !cyc_iter_closed in E by assumption.
+  apply N.add_cancel_l in E. symmetry in E.
+  replace (x - lo + N.of_nat j) with ((x - lo + N.of_nat i) + (N.of_nat j - N.of_nat i)) in E by lia.
+  revert E. apply mod_shift_neq; lia.
+Qed.
+
+Lemma first_free_None s lo hi : forall fuel x, first_free s lo hi x fuel = None ->
+  forall i, (i < fuel)%nat -> am_mem s (cyc_iter lo hi i x) = true.
+Proof.
+  induction fuel as [|f IH]; intros x H i Hi; [lia|]. cbn [first_free] in H.
+  destruct (am_mem s x) eqn:E; [|discriminate].
+  destruct i as [|i]; [exact E|]. cbn [cyc_iter]. apply IH; [exact H|lia].
+Qed.
+
+Lemma first_free_Some s lo hi : forall fuel x id cur, first_free s lo hi x fuel = Some (id, cur) ->
+  exists n, (n < fuel)%nat /\ id = cyc_iter lo hi n x /\ cur = cyc_iter lo hi (S n) x /\ am_mem s id = false /\
+            forall i, (i < n)%nat -> am_mem s (cyc_iter lo hi i x) = true.
+Proof.
+  induction fuel as [|f IH]; intros x id cur H; [discriminate|]. cbn [first_free] in H.
+  destruct (am_mem s x) eqn:E.
+  - destruct (IH _ _ _ H) as (n & Hn & -> & -> & M & P). exists (S n). cbn [cyc_iter].
+    repeat split; auto; [lia|]. intros i Hi. destruct i as [|i]; [exact E|]. cbn [cyc_iter]. apply P. lia.
+  - inversion H; subst. exists 0%nat. cbn [cyc_iter]. repeat split; auto; [lia|]. intros i Hi. lia.
+Qed.
+
+(* pigeonhole: with at most hi-lo live keys a free id is found within count+1 steps *)
+Lemma first_free_total s lo hi x : lo <= x <= hi -> N.of_nat (length s) <= hi - lo ->
+  exists id cur, first_free s lo hi x (S (length s)) = Some (id, cur).
+Proof.
+  intros Hx Hlen. destruct (first_free s lo hi x (S (length s))) as [[id cur]|] eqn:E; [eauto|].
+  exfalso. pose proof (first_free_None s lo hi _ _ E) as A.
+  set (L := map (fun i => cyc_iter lo hi i x) (seq 0 (S (length s)))).
+  assert (ND: NoDup L).
+  { apply NoDup_map_inj_on; [apply seq_NoDup|]. intros a b Ha Hb Eab. apply in_seq in Ha, Hb.
+    destruct (Nat.lt_trichotomy a b) as [Lt|[Eq|Lt]]; [|assumption|]; exfalso.
+    - revert Eab. apply cyc_iter_inj; lia.
+    - symmetry in Eab. revert Eab. apply cyc_iter_inj; lia. }
+  assert (IN: incl L (map fst s)).
+  { intros y Hy. apply in_map_iff in Hy. destruct Hy as (i & <- & Hi). apply in_seq in Hi.
+    apply am_mem_true_iff. apply A. lia. }
+  pose proof (NoDup_incl_length ND IN) as LE. unfold L in LE. rewrite !map_length, seq_length in LE. lia.
+Qed.
+
+Lemma u64_sub_plain a b : b <= a -> a < U64 -> u64_sub a b = a - b.
+Proof.
+  intros H1 H2. unfold u64_sub. rewrite (N.mod_small b) by lia.
+  replace (a + U64 - b) with ((a - b) + 1 * U64) by lia. rewrite N.mod_add by (unfold U64; lia).
+  apply N.mod_small. lia.
+Qed.
+Lemma u64_add_plain a b : a + b < U64 -> u64_add a b = a + b.
+Proof. intros H. unfold u64_add. now apply N.mod_small. Qed.
+
+Lemma model_succ fixed m dyn : RInv fixed m -> id_min_val m <= dyn <= id_max_val m ->
+  (if (id_max_val m <? u64_add dyn 1) || (fixed && (u64_add dyn 1 =? 0)) then id_min_val m else u64_add dyn 1)
+  = cyc_succ (id_min_val m) (id_max_val m) dyn.
+Proof.
+  intros [H1 H2 H3 H4 H5] Hd. unfold cyc_succ.
+  destruct (N.lt_ge_cases (dyn + 1) U64) as [L|L].
+  - rewrite u64_add_plain by assumption.
+    destruct (id_max_val m <? dyn + 1) eqn:E; [reflexivity|].
+    assert ((dyn + 1 =? 0) = false) by (apply N.eqb_neq; lia). rewrite H. now rewrite andb_false_r.
+  - assert (EU: dyn + 1 = U64) by lia. unfold u64_add. rewrite EU, N.mod_same by (unfold U64; lia).
+    destruct H4 as [->|H4]; [|lia]. cbn [andb N.eqb orb].
+    assert (X1: (id_max_val m <? 0) = false) by (apply N.ltb_ge; lia). rewrite X1. cbn [orb].
+    assert (X2: (id_max_val m <? U64) = true) by (apply N.ltb_lt; lia). now rewrite X2.
+Qed.
+
+Lemma find_mem m id : MInv m ->
+  (exists c, id_find m id = IdOk (Some c) /\ am_mem (abs_list (id_entries m)) id = true) \/
+  (id_find m id = IdOk None /\ am_mem (abs_list (id_entries m)) id = false).
+Proof.
+  intros HI. destruct (id_find_spec m id HI) as [(c & e & F & Hc & L & K)|[F D]].
+  - left. exists c. split; [assumption|]. apply am_mem_true_iff. apply in_map_iff.
+    apply live_val in L. destruct L as [v Hv]. exists (id, v). split; [reflexivity|]. apply abs_In. eauto.
+  - right. split; [assumption|]. destruct (am_mem (abs_list (id_entries m)) id) eqn:E; [|reflexivity].
+    exfalso. apply am_mem_true_iff in E. revert E. now apply notin_of_dead.
+Qed.
+
+Lemma alloc_loop_spec fixed m : MInv m -> RInv fixed m -> forall fuel dyn,
+  id_min_val m <= dyn <= id_max_val m ->
+  alloc_loop fixed m dyn fuel =
+  match first_free (abs_list (id_entries m)) (id_min_val m) (id_max_val m) dyn fuel with
+  | Some r => IdOk r
+  | None => IdErr IdFuel
+  end.
+Proof.
+  intros HI HR. induction fuel as [|f IH]; intros dyn Hd; [reflexivity|].
+  cbn [alloc_loop first_free]. rewrite (model_succ fixed m dyn HR Hd).
+  destruct (find_mem m dyn HI) as [(c & F & M)|[F M]]; rewrite F, M; cbn [id_bind].
+  - apply IH. apply cyc_succ_range. exact Hd.
+  - reflexivity.
+Qed.
+Local Close Scope N_scope.
+
+(* ------------------------------------------------ from pairs to the spec *)
+Lemma equiv_from_pairs (a b : id_amap) : NoDup (map fst a) -> NoDup (map fst b) ->
+  (forall k v, In (k, v) a <-> In (k, v) b) -> am_equiv a b /\ length a = length b.
+Proof.
+  intros Ha Hb H. split; [now apply am_equiv_of_In|].
+  apply Permutation_length. apply NoDup_Permutation.
+  - eapply NoDup_map_inv; eauto.
+  - eapply NoDup_map_inv; eauto.
+  - intros [k v]. apply H.
+Qed.
+
+Lemma abs_count m : MInv m -> length (abs_list (id_entries m)) = id_count m.
+Proof. intros HI. rewrite abs_length. symmetry. apply (mi_count m HI). Qed.
+
+Lemma abs_keys_NoDup m : MInv m -> NoDup (map fst (abs_list (id_entries m))).
+Proof. intros HI. apply abs_NoDup, (mi_tinv m HI). Qed.
+
+Lemma spec_equiv_refl s : id_spec_equiv s s.
+Proof. repeat split; auto. Qed.
+
+Lemma RInv_range fixed m m' : same_range m m' -> RInv fixed m -> RInv fixed m'.
+Proof. intros (A & B & C & D) [H1 H2 H3 H4 H5]. split; rewrite ?A, ?B, ?D; assumption. Qed.
+
+Lemma same_range_refl m : same_range m m.
+Proof. repeat split. Qed.
+Lemma same_range_trans a b c : same_range a b -> same_range b c -> same_range a c.
+Proof. intros (A & B & C & D) (A' & B' & C' & D'). repeat split; congruence. Qed.
+
+(* set *)
+Lemma set_refines fixed m k v f : Inv fixed m ->
+  exists rv m', id_set m k v f = IdOk (rv, m') /\ Inv fixed m' /\
+                id_spec_rel (abs m) (IoSet k v f) (OutRv rv) (abs m').
+Proof.
+  intros [HI HR]. destruct (id_set_spec m k v f HI) as (rv & m' & R & HI' & RS & [[-> SP]|(-> & -> & AS & CS)]);
+    exists rv, m'; subst; (split; [exact R|]); (split; [split; [exact HI'|exact (RInv_range _ _ _ RS HR)]|]).
+  - left. cbn [id_spec_step fst snd]. split; [reflexivity|].
+    destruct RS as (A & B & C & D).
+    destruct (equiv_from_pairs (abs_list (id_entries m')) (am_set (abs_list (id_entries m)) k v)) as [E1 E2].
+    + now apply abs_keys_NoDup.
+    + apply am_set_NoDup. now apply abs_keys_NoDup.
+    + intros k' v'. rewrite am_set_In. apply SP.
+    + repeat split; cbn; auto.
+  - right. eexists. split; [reflexivity|]. split; [reflexivity|]. cbn [snd].
+    destruct RS as (A & B & C & D).
+    destruct (equiv_from_pairs (abs_list (id_entries m')) (abs_list (id_entries m))) as [E1 E2];
+      [now apply abs_keys_NoDup|now apply abs_keys_NoDup|exact AS|].
+    repeat split; cbn; auto.
+Qed.
+
+(* remove *)
+Lemma remove_refines fixed m k f : Inv fixed m ->
+  exists rv m', id_remove m k f = IdOk (rv, m') /\ Inv fixed m' /\
+                id_spec_rel (abs m) (IoRemove k f) (OutRv rv) (abs m').
+Proof.
+  intros [HI HR]. destruct (id_remove_spec m k f HI) as (rv & m' & R & HI' & RS & [(-> & -> & NI)|(-> & IN & RP & CS)]);
+    eexists _, _; (split; [exact R|]); (split; [split; [exact HI'|exact (RInv_range _ _ _ RS HR)]|]); left;
+    cbn [id_spec_step abs sp_map].
+  - assert (M: am_mem (abs_list (id_entries m)) k = false).
+    { destruct (am_mem (abs_list (id_entries m)) k) eqn:E; [|reflexivity]. apply am_mem_true_iff in E. contradiction. }
+    rewrite M. cbn [fst snd]. split; [reflexivity|apply spec_equiv_refl].
+  - apply am_mem_true_iff in IN. rewrite IN. cbn [fst snd]. split; [reflexivity|].
+    destruct RS as (A & B & C & D).
+    destruct (equiv_from_pairs (abs_list (id_entries m')) (am_remove (abs_list (id_entries m)) k)) as [E1 E2].
+    + now apply abs_keys_NoDup.
+    + apply am_remove_NoDup. now apply abs_keys_NoDup.
+    + intros k' v'. rewrite am_remove_In. apply RP.
+    + repeat split; cbn; auto.
+Qed.
+
+(* the start of the cursor *)
+Lemma start_eq fixed m rnd : RInv fixed m ->
+  let m1 := if (id_dyn_val m =? 0)%N
+            then set_dyn m (if id_random m
+                            then u64_add (rnd mod (u64_add (u64_sub (id_max_val m) (id_min_val m)) 1)) (id_min_val m)
+                            else id_min_val m)
+            else m in
+  id_dyn_val m1 = sp_start (abs m) rnd /\ (id_min_val m <= sp_start (abs m) rnd <= id_max_val m)%N /\
+  same_core m m1 /\ id_min_val m1 = id_min_val m /\ id_max_val m1 = id_max_val m /\ id_random m1 = id_random m.
+Proof.
+  intros [H1 H2 H3 H4 H5]. cbn zeta. unfold sp_start. cbn [abs sp_cur sp_random sp_hi sp_lo].
+  destruct (id_dyn_val m =? 0)%N eqn:E.
+  - rewrite u64_sub_plain by assumption.
+    rewrite (u64_add_plain (id_max_val m - id_min_val m) 1) by lia.
+    assert (B: (rnd mod (id_max_val m - id_min_val m + 1) < id_max_val m - id_min_val m + 1)%N) by (apply N.mod_lt; lia).
+    rewrite u64_add_plain by lia.
+    destruct (id_random m); cbn [set_dyn id_dyn_val id_min_val id_max_val id_random];
+      (split; [reflexivity|]); (split; [lia|]); repeat split.
+  - apply N.eqb_neq in E. split; [reflexivity|]. split; [lia|]. repeat split.
+Qed.
+
+(* alloc *)
+Lemma alloc_refines fixed m v rnd f : Inv fixed m ->
+  exists rv ido m', id_alloc fixed m v rnd f = IdOk (rv, ido, m') /\ Inv fixed m' /\
+                    id_spec_rel (abs m) (IoAlloc v rnd f) (OutAlloc rv ido) (abs m').
+Proof.
+  intros [HI HR]. unfold id_alloc.
+  pose proof (abs_count m HI) as AC.
+  assert (US: u64_sub (id_max_val m) (id_min_val m) = (id_max_val m - id_min_val m)%N)
+    by (destruct HR; now apply u64_sub_plain).
+  rewrite US.
+  destruct (id_max_val m - id_min_val m <? N.of_nat (id_count m))%N eqn:Efull.
+  { exists id_ENOMEM, None, m. split; [reflexivity|]. split; [split; assumption|]. left.
+    cbn [id_spec_step abs sp_map sp_hi sp_lo]. rewrite AC, Efull. cbn [fst snd]. split; [reflexivity|apply spec_equiv_refl]. }
+  rewrite <- US.
+  destruct (start_eq fixed m rnd HR) as (SD & SR & SC & Slo & Shi & Srnd).
+  set (m1 := if (id_dyn_val m =? 0)%N then _ else m) in *.
+  assert (HI1: MInv m1) by (eapply MInv_core; eauto).
+  assert (HR1: RInv fixed m1).
+  { destruct HR as [H1 H2 H3 H4 H5]. split; rewrite ?Slo, ?Shi, ?SD; auto. }
+  destruct SC as (E1 & E2 & E3 & E4 & E5).
+  rewrite (alloc_loop_spec fixed m1 HI1 HR1) by (rewrite Slo, Shi, SD; exact SR).
+  rewrite E1, E2, Slo, Shi, SD.
+  apply N.ltb_ge in Efull.
+  destruct (first_free_total (abs_list (id_entries m)) (id_min_val m) (id_max_val m) (sp_start (abs m) rnd) SR)
+    as (id & cur & FF); [rewrite AC; exact Efull|].
+  pose proof FF as FF'. rewrite AC in FF'. rewrite FF'. cbn [id_bind].
+  destruct (first_free_Some _ _ _ _ _ _ _ FF) as (n & Hn & Hid & Hcur & Hfree & Hbusy).
+  assert (CR: (id_min_val m <= cur <= id_max_val m)%N).
+  { rewrite Hcur. apply cyc_iter_range; [destruct HR; assumption|exact SR]. }
+  set (m2 := set_dyn m1 cur).
+  assert (HI2: MInv m2) by (apply (MInv_core m1); [repeat split|assumption]).
+  assert (HR2: RInv fixed m2).
+  { destruct HR1 as [H1 H2 H3 H4 H5]. split; unfold m2; cbn [set_dyn id_min_val id_max_val id_dyn_val]; auto.
+    right. rewrite Slo, Shi. exact CR. }
+  destruct (id_set_spec m2 id v f HI2) as (rv & m' & R & HI' & RS & [[-> SP]|(-> & -> & AS & CS)]);
+    rewrite R; cbn [id_bind N.eqb].
+  - exists 0%N, (Some id), m'. split; [reflexivity|].
+    split; [split; [exact HI'|exact (RInv_range _ _ _ RS HR2)]|].
+    left. cbn [id_spec_step abs sp_map sp_hi sp_lo]. apply N.ltb_ge in Efull. rewrite AC, Efull.
+    change (mkIdSpec (abs_list (id_entries m)) (id_min_val m) (id_max_val m) (id_random m) (id_dyn_val m)) with (abs m).
+    rewrite FF'. cbn [fst snd]. split; [reflexivity|].
+    destruct RS as (A & B & C & D).
+    destruct (equiv_from_pairs (abs_list (id_entries m')) (am_set (abs_list (id_entries m)) id v)) as [X1 X2].
+    + now apply abs_keys_NoDup.
+    + apply am_set_NoDup. now apply abs_keys_NoDup.
+    + intros k' v'. rewrite am_set_In. specialize (SP k' v'). unfold m2 in SP. cbn [set_dyn id_entries] in SP.
+      rewrite E1 in SP. exact SP.
+    + unfold m2 in *. cbn [set_dyn id_min_val id_max_val id_random id_dyn_val] in *.
+      repeat split; cbn; auto; congruence.
+  - exists id_ENOMEM, None, m'. split; [reflexivity|].
+    split; [split; [exact HI'|exact (RInv_range _ _ _ RS HR2)]|].
+    right. cbn [id_spec_fail_step abs sp_map sp_hi sp_lo]. apply N.ltb_ge in Efull. rewrite AC, Efull.
+    change (mkIdSpec (abs_list (id_entries m)) (id_min_val m) (id_max_val m) (id_random m) (id_dyn_val m)) with (abs m).
+    rewrite FF'. eexists. split; [reflexivity|]. split; [reflexivity|]. cbn [snd].
+    destruct RS as (A & B & C & D).
+    destruct (equiv_from_pairs (abs_list (id_entries m')) (abs_list (id_entries m))) as [X1 X2];
+      [now apply abs_keys_NoDup|now apply abs_keys_NoDup| |].
+    + intros k' v'. specialize (AS k' v'). unfold m2 in AS. cbn [set_dyn id_entries] in AS. rewrite E1 in AS. exact AS.
+    + unfold m2 in *. cbn [set_dyn id_min_val id_max_val id_random id_dyn_val] in *.
+      repeat split; cbn; auto; congruence.
+Qed.
+
+(* ----------------------------------------------------- one step, all steps *)
+Theorem step_refines fixed m o : Inv fixed m ->
+  exists out m', id_step fixed m o = IdOk (out, m') /\ Inv fixed m' /\ id_spec_rel (abs m) o out (abs m').
+Proof.
+  intros HInv. destruct o as [k v f|k|k f|v rnd f| |]; cbn [id_step].
+  - destruct (set_refines fixed m k v f HInv) as (rv & m' & R & I' & S'). rewrite R. cbn [id_bind]. eauto.
+  - rewrite (id_get_spec m k (proj1 HInv)). cbn [id_bind]. eexists _, m. split; [reflexivity|]. split; [assumption|].
+    left. cbn [id_spec_step fst snd]. split; [reflexivity|apply spec_equiv_refl].
+  - destruct (remove_refines fixed m k f HInv) as (rv & m' & R & I' & S'). rewrite R. cbn [id_bind]. eauto.
+  - destruct (alloc_refines fixed m v rnd f HInv) as (rv & ido & m' & R & I' & S'). rewrite R. cbn [id_bind]. eauto.
+  - rewrite id_visit_all_spec. cbn [id_bind]. eexists _, m. split; [reflexivity|]. split; [assumption|].
+    left. cbn [id_spec_step fst snd out_equiv abs sp_map]. split; [|apply spec_equiv_refl].
+    split; [apply abs_keys_NoDup, (proj1 HInv)|intros k; reflexivity].
+  - eexists _, m. split; [reflexivity|]. split; [assumption|].
+    left. cbn [id_spec_step fst snd out_equiv abs sp_map]. split; [|apply spec_equiv_refl].
+    f_equal. symmetry. apply abs_count, (proj1 HInv).
+Qed.
+
+Theorem run_refines fixed : forall ops m, Inv fixed m ->
+  exists outs m', id_run fixed m ops = IdOk (outs, m') /\ Inv fixed m' /\ id_spec_run (abs m) ops outs (abs m').
+Proof.
+  induction ops as [|o rest IH]; intros m HInv; cbn [id_run].
+  - exists [], m. split; [reflexivity|]. split; [assumption|constructor].
+  - destruct (step_refines fixed m o HInv) as (out & m1 & R & I1 & S1). rewrite R. cbn [id_bind].
+    destruct (IH m1 I1) as (outs & m2 & R2 & I2 & S2). rewrite R2. cbn [id_bind].
+    exists (out :: outs), m2. split; [reflexivity|]. split; [assumption|]. econstructor; eauto.
+Qed.
+
+(* ---------------------------------------------------------- init / fini *)
+Lemma MInv_empty st rg rnd lo hi dyn : MInv (mkIdMap [] 0 0 0 0 st rg rnd lo hi dyn).
+Proof.
+  split; unfold thresholds_ok, id_cap; cbn; auto.
+  split.
+  - intros i j ei ej Hi. destruct i; discriminate.
+  - intros c e Hc. destruct c; discriminate.
+  - intros c e Hc. destruct c; discriminate.
+Qed.
+
+Theorem init_inv fixed lo hi rnd m : (lo < U64)%N -> (hi < U64)%N -> (fixed = true \/ hi + 1 < U64)%N ->
+  id_map_init lo hi rnd = IdOk m ->
+  Inv fixed m /\ abs m = mkIdSpec [] (if (lo =? 0)%N then 1%N else lo) (if (hi =? 0)%N then ID_DEFAULT_HI else hi) rnd 0%N.
+Proof.
+  intros Hlo Hhi Hf. unfold id_map_init.
+  destruct (negb ((if (lo =? 0)%N then 1%N else lo) <? (if (hi =? 0)%N then ID_DEFAULT_HI else hi))%N) eqn:E; [discriminate|].
+  intros H. inversion H; subst m. apply negb_false_iff, N.ltb_lt in E.
+  split; [|reflexivity]. split; [apply MInv_empty|].
+  unfold ID_DEFAULT_HI, U64 in *.
+  split; cbn [id_min_val id_max_val id_dyn_val]; destruct (lo =? 0)%N eqn:E1; destruct (hi =? 0)%N eqn:E2;
+    try apply N.eqb_eq in E1; try apply N.eqb_eq in E2; try apply N.eqb_neq in E1; try apply N.eqb_neq in E2;
+    try lia; auto; destruct Hf; auto; right; lia.
+Qed.
+
+Theorem static_init_inv fixed lo hi rnd : (1 <= lo)%N -> (lo <= hi)%N -> (hi < U64)%N -> (fixed = true \/ hi + 1 < U64)%N ->
+  Inv fixed (id_map_static_init lo hi rnd).
+Proof.
+  intros H1 H2 H3 H4. split; [apply MInv_empty|]. split; cbn; auto.
+Qed.
+
+Theorem fini_inv fixed m : Inv fixed m -> Inv fixed (id_map_fini m) /\ abs_list (id_entries (id_map_fini m)) = [].
+Proof.
+  intros [HI HR]. unfold id_map_fini. destruct (id_entries m) eqn:E.
+  - split; [split; assumption|]. now rewrite E.
+  - split; [|reflexivity]. split; [apply MInv_empty|]. destruct HR as [A B C D F]. split; cbn; assumption.
+Qed.
